@@ -156,10 +156,16 @@ def delay_scratch(F, R, rule='B.C13.slicing'):
         return
     from .c02 import iter_source
     passes = [l for l in b.loops() if 'chunks_mut' in (iter_source(b, l) or '')]
+    # the scratch buffer: the frame vector of the delay that is not the delay line (the line's length sizes the passes)
+    a = F.adt('effect::delay::Delay')
+    vecs = [f['name'] for f in (a['variants'][0]['fields'] if a else []) if f['ty'].replace(' ', '') in ('std::vec::Vec<frame::Frame>', 'std::vec::Vec<frame::Frame,std::alloc::Global>')]
+    src = iter_source(b, passes[0]) if passes else ''
+    scratch = [v for v in vecs if ('.' + v) not in src]
     uses = set()
+    from ..paths import pretty_place
     for bb, pl, kind in b.all_places():
-        pr = pl['p']
-        if pl['l'] == 1 and len(pr) >= 2 and pr[0][0] == 'deref' and pr[1][0] == 'field' and pr[1][2] == 'temp_buffer':
+        # (also through the `self` of a private method spliced into process)
+        if len(scratch) == 1 and pl['p'] and pretty_place(b, pl).startswith('(*self).%s' % scratch[0]):
             uses.add(bb)
     if not R.check(len(passes) == 1 and bool(uses), rule, 'anchor:delay-scratch:shape', 'the pass loop over chunks_mut(..) / the scratch buffer of Delay::process was not found'):
         return
